@@ -131,7 +131,18 @@ func randomReal(rng *rand.Rand) *realCase {
 			g, needStop = "go infinite", true
 		case 5:
 			if ponder {
-				g, needStop = fmt.Sprintf("go ponder wtime %d btime %d", 100+rng.IntN(1500), 100+rng.IntN(1500)), true
+				// while pondering every limit is ignored: only ponderhit or stop ends it
+				switch rng.IntN(4) {
+				case 0:
+					g = fmt.Sprintf("go ponder wtime %d btime %d", 100+rng.IntN(1500), 100+rng.IntN(1500))
+				case 1:
+					g = fmt.Sprintf("go ponder nodes %d", 1+rng.IntN(5000))
+				case 2:
+					g = fmt.Sprintf("go ponder depth %d", 1+rng.IntN(6))
+				default:
+					g = fmt.Sprintf("go ponder movetime %d", 1+rng.IntN(30))
+				}
+				needStop = true
 			} else {
 				g = fmt.Sprintf("go nodes %d", 1+rng.IntN(500))
 			}
